@@ -19,7 +19,7 @@ ASSUMPTIONS = ['property models are monotone in T on 250-500 K for the drawn com
                'mixed temperature is required to land in 200-600 K, otherwise the case is counted as rejected (outside model range)',
                'tolerances from Mixture.T_tol = 1e-6 K (DESIGN.md section 4)']
 REQUIRED_CELLS = {'quick': ['mix:recv=S', 'mix:recv=M', 'mix:multi-inlet', 'mix:Q!=0', 'mix:heat-object', 'mix:self',
-                            'set:H', 'set:h', 'set:S', 'set:Hnet', 'set:multi', 'sep:multi', 'sep:other-at-mixture-T', 'mix:empty-inlet-lowest-P', 'mixvle:Q!=0', 'set:PR', 'set:T*=Tref', 'mix:all-inlets-at-Tref', 'set:composition-edit-before-same', 'mixpr:self-above-min-P'], 'thorough': []}
+                            'set:H', 'set:h', 'set:S', 'set:Hnet', 'set:multi', 'sep:multi', 'sep:other-at-mixture-T', 'mix:empty-inlet-lowest-P', 'mixvle:Q!=0', 'set:PR', 'set:T*=Tref', 'mix:all-inlets-at-Tref', 'set:composition-edit-before-same', 'mixpr:self-above-min-P', 'set:F_mol=1', 'sep:own-phase-stream'], 'thorough': []}
 
 PKGS = ['A', 'B', 'C', 'D']
 T_TOL = 1e-6
@@ -120,7 +120,11 @@ def prop_mix(ch, ctx):
         recv = ctx.call('mix.sum', cls.sum, inlets, None, th, True, region=region)
     else:
         op = 'mix_from'
-        ctx.call('mix.mix_from', recv.mix_from, others, energy_balance=True, Q=parts[0], region=region)
+        # "any collection": list, tuple or a one-shot iterator over streams and heat objects
+        cont = ch.choice('container', ['list', 'list', 'tuple', 'iter'])
+        if cont != 'list': ctx.cell('mix:container=' + cont)
+        arg = others if cont == 'list' else tuple(others) if cont == 'tuple' else iter(list(others))
+        ctx.call('mix.mix_from', recv.mix_from, arg, energy_balance=True, Q=parts[0], region=region)
     if not (200. < recv.T < 600.):
         ctx.reject('mixed temperature outside the model range')
     if not cn_positive(recv):
@@ -158,9 +162,17 @@ def prop_separate(ch, ctx):
         # the separated stream need not be at its original temperature: same material, at exactly the mixture's T
         other.T = recv.T
         ctx.cell('sep:other-at-mixture-T')
+    own_view = False
+    if rkind == 'M' and len(recv.phases) > 1 and ch.choice('other.own-view', [False, False, False, True]):
+        # one of the mixture's own phase streams is separated out of it (ms.separate_out(ms['g']), ms -= ms['l'])
+        cand = [p for p in recv.phases if not recv[p].isempty()]
+        if len(cand) > 1:
+            other = recv[ch.choice('view.phase', cand)]
+            own_view = True
+            ctx.cell('sep:own-phase-stream')
     H_before = recv.H
     H_other = other.H
-    region = f'recv={rkind},other={vs.kind_tag(specs[k])},xpkg={int(specs[k]["pkg"] != recv_pkg)}'
+    region = f'recv={rkind},other={vs.kind_tag(specs[k])},xpkg={int(specs[k]["pkg"] != recv_pkg)}' if not own_view else f'recv={rkind},other=own-view'
     if specs[k]['kind'] == 'M': ctx.cell('sep:multi')
     want = H_before - H_other
     try:
@@ -265,6 +277,17 @@ def prop_setter(ch, ctx):
         # enthalpy turns (found by the thorough tier: H(250.5 K) is reached again at 220 K, a legitimate second root)
         Tstar = 290.0 + (Tstar - 250.5) * 180.0 / 249.0
         T0 = 290.0 + (T0 - 250.5) * 180.0 / 249.0
+    unit_total = False
+    if sp['kind'] == 'S' and mixture_kind != 'PR' and ch.choice('unit-total', [False, False, False, True]):
+        # total flow exactly 1.0 kmol/hr (already "normalised" data): dyadic fractions over 2-3 chemicals
+        nchem = len(sp['flows'][0])
+        idx = ch.subset('unit.chems', list(range(nchem)), min_size=2, max_size=3)
+        vals = [0.25, 0.75] if len(idx) == 2 else [0.5, 0.125, 0.375]
+        row = [0.0] * nchem
+        for i, v in zip(idx, vals): row[i] = v
+        sp = dict(sp, flows=[row]); sp.pop('order', None)
+        unit_total = True
+        ctx.cell('set:F_mol=1')
     s = vs.build(sp)
     tmo.settings.set_thermo(s.thermo)
     # Liquid heat-capacity correlations diverge towards the critical point (hexane Tc = 507.6 K): a liquid row is only
@@ -335,6 +358,11 @@ def prop_setter(ch, ctx):
         data = s.imol.data
         rows = data.rows if hasattr(data, 'rows') else [data]
         for r in rows:
+            if unit_total:
+                # rotate the values among the stored keys: the total stays exactly 1.0
+                ks = list(r.dct); vs_ = [r.dct[k] for k in ks]
+                for k, v in zip(ks, vs_[1:] + vs_[:1]): r.dct[k] = v
+                continue
             for k in list(r.dct):
                 r.dct[k] = r.dct[k] * (2.0 if k % 2 == 0 else 0.5)
         _ = s.C
